@@ -85,6 +85,17 @@ def serialize (ser : V → Str) (asStr : V → Option Str) (H : Str → Str) (c 
         | none => ({ st with ext := ext' }, none)
       else ({ st with ext := ext' }, some key)
 
+/-- `serialize(obj)` while the backend write fails (a locked database, a dropped connection): when the value has to be
+    externalised the error propagates and nothing changes - the value is NOT handed back inline instead, its representation
+    (and with it the call identity) does not depend on a transient fault; `none` = the storage error was raised -/
+def serializeFault (ser : V → Str) (asStr : V → Option Str) (_H : Str → Str) (c : Conf) (st : Store V) (o : V) :
+    Store V × Option (Option Str) :=
+  if c.disabled then (st, some (some (ser o)))
+  else
+    match (asStr o).filter isRef with
+    | some s => (st, some (some s))
+    | none => if external c (ser o).length then (st, none) else (st, some (some (ser o)))
+
 /-- `resolve(data)` (= `deserialize(data)`) -/
 def resolve (deser : Str → Option V) (c : Conf) (st : Store V) (data : Str) : Store V × Res V :=
   if isRef data then
